@@ -383,7 +383,7 @@ def digest_form(ctx):
     if sniff:
         ctx.violate(q, 'a digest given as bytes passes through %s(...), which reinterprets bytes that spell hexadecimal text' % sniff[0][1], stmts[0],
                     'for a digest such as b"deadbeef" * 4 another value is signed: the produced signature does not verify for the digest the caller gave')
-    elif got not in (('mcall', T, 'hex', (), ()), ('hex', T)):
+    elif (got[1] if isinstance(got, tuple) and len(got) >= 3 and got[0] == 'mcall' and got[2] in ('lower', 'upper') else got) not in (('mcall', T, 'hex', (), ()), ('hex', T)):
         ctx.unsure('%s: a bytes digest becomes %s' % (q, show(got)[:100]))
     q = 'keys:Signature.verify'
     fn = ctx.repo.func(q)
